@@ -17,6 +17,7 @@ import (
 	"github.com/btcsuite/btcd/btcutil"
 	"github.com/btcsuite/btcd/chaincfg/chainhash"
 	"github.com/btcsuite/btcd/wire"
+	"github.com/lightninglabs/pool"
 	"github.com/lightninglabs/pool/account"
 	"github.com/lightninglabs/pool/auctioneer"
 	"github.com/lightninglabs/pool/auctioneerrpc"
@@ -25,6 +26,7 @@ import (
 	"github.com/lightninglabs/pool/poolscript"
 	"github.com/lightninglabs/pool/sidecar"
 	"github.com/lightninglabs/pool/terms"
+	"github.com/lightningnetwork/lnd/chainntnfs"
 	"github.com/lightningnetwork/lnd/keychain"
 	"github.com/lightningnetwork/lnd/lnwallet/chainfee"
 	"google.golang.org/grpc"
@@ -1146,6 +1148,28 @@ func (c *c06Case) step(op string) {
 				}
 				directA = map[int]c06Acct{k: a}
 			}
+		case "acctspend":
+			// the REAL account manager on the daemon's accountStore wrapper
+			k, kind, t, h := atoi(f[1]), f[2], atoi(f[3]), atoi(f[4])
+			tx := d.w.txs[t].Copy()
+			switch kind {
+			case "multisig":
+				if (k+t+h)%2 == 0 { // p2wsh shape
+					tx.TxIn[0].Witness = wire.TxWitness{bytes.Repeat([]byte{0x30}, 71),
+						bytes.Repeat([]byte{0x30}, 71), {0x52, 0x21}}
+				} else { // taproot key spend
+					tx.TxIn[0].Witness = wire.TxWitness{bytes.Repeat([]byte{0x01}, 64)}
+				}
+			case "expiry":
+				tx.TxIn[0].Witness = wire.TxWitness{{}, bytes.Repeat([]byte{0x30}, 71), {0x52, 0x21}}
+			default:
+				tx.TxIn[0].Witness = wire.TxWitness{{0x01}, {0x02}}
+			}
+			mgr := account.NewManager(&account.ManagerConfig{Store: pool.VerifC06AccountStore(d.db)})
+			err := mgr.HandleAccountSpend(d.w.acctKey[k], &chainntnfs.SpendDetail{
+				SpendingTx: tx, SpenderInputIndex: 0, SpendingHeight: int32(h),
+			})
+			res = c06ErrName(err)
 		case "reconnect":
 			var fk *c06Rpc
 			res, fk = d.reconnect(f[1], f[2] == "1")
@@ -1287,6 +1311,63 @@ func (c *c06Case) step(op string) {
 				}
 			} else if !c06SnapEq(ob.G[i], prev.G[i]) {
 				c.violate("snapshot of batch %d changed by completing batch %d", i, p.ID)
+			}
+		}
+	case "acctspend":
+		k, kind, t, h := atoi(f[1]), f[2], int64(atoi(f[3])), int64(atoi(f[4]))
+		_, known := prev.A[k]
+		r.Count("acctspend/" + kind + "/" + res)
+		if !known || kind == "unknown" {
+			if ok || ob.str() != prev.str() {
+				c.violate("spend of unknown account / with unknown witness: result %s or state changed", res)
+			}
+			break
+		}
+		// expected: (multi-sig spend and a staged batch) the staged batch is
+		// completed first; then the account is closed with the spend tx
+		wantA, wantO := map[int]c06Acct{}, map[int]c06Ord{}
+		for kk, a := range prev.A {
+			wantA[kk] = a
+		}
+		for n, o := range prev.O {
+			wantO[n] = o
+		}
+		wantP, wantS := prev.P, len(prev.S)
+		if kind == "multisig" && prev.P != nil {
+			r.Count("acctspend/completes-pending")
+			c.sawCompleteOk = true
+			for kk, a := range prev.P.A {
+				wantA[kk] = a
+			}
+			for n, so := range prev.P.O {
+				o := wantO[n]
+				o.State, o.Unfilled = so.State, so.Unfilled
+				wantO[n] = o
+			}
+			wantP, wantS = nil, wantS+1
+			if len(ob.S) != wantS || !c06SnapEq(ob.S[len(ob.S)-1], prev.P) || !c06SnapEq(ob.G[prev.P.ID], prev.P) {
+				c.violate("spend with a staged batch did not file the staged snapshot")
+			}
+		} else if kind == "expiry" && prev.P != nil {
+			r.Count("acctspend/expiry-keeps-pending")
+		}
+		a := wantA[k]
+		a.State, a.Hint, a.Tx = 6, h, t
+		wantA[k] = a
+		if !ok {
+			c.violate("account spend failed: %s", res)
+		}
+		if !c06SnapEq(ob.P, wantP) || len(ob.S) != wantS {
+			c.violate("account spend: staged batch / snapshot history not as expected")
+		}
+		for kk, w := range wantA {
+			if got, found := ob.A[kk]; !found || !acctEq(got, w) {
+				c.violate("account %d after spend: got %v want %v", kk, ob.A[kk], w)
+			}
+		}
+		for n, w := range wantO {
+			if got, found := ob.O[n]; !found || got != w {
+				c.violate("order %d after spend: got %v want %v", n, ob.O[n], w)
 			}
 		}
 	case "discard":
@@ -1605,6 +1686,13 @@ func (g *c06Gen) history() []string {
 				ms = append(ms, g.omods(1))
 			}
 			ops = append(ops, fmt.Sprintf("updorders %s %s", joinOr2(ns, ","), joinOr2(ms, "/")))
+		case x < 83:
+			k := 1 + rng.Intn(g.nA)
+			if rng.Intn(10) == 0 {
+				k = 5
+			}
+			kind := []string{"multisig", "multisig", "multisig", "expiry", "unknown"}[rng.Intn(5)]
+			ops = append(ops, fmt.Sprintf("acctspend %d %s %d %d", k, kind, 1+rng.Intn(7), 100+rng.Intn(900)))
 		case x < 87:
 			k := 1 + rng.Intn(g.nA)
 			if rng.Intn(8) == 0 {
